@@ -83,6 +83,7 @@ func (Engine) Run(t *tape.Tape, o eng.Opts) *eng.Result {
 	gen := t.Stream("gen")
 	fg := t.Stream("fault")
 	p := Profile()
+	cfgLong := false
 	// Swarm: vary the mix per run.
 	if sw.Intn(4) == 1 {
 		p.StaticPm = 900
@@ -90,6 +91,24 @@ func (Engine) Run(t *tape.Tape, o eng.Opts) *eng.Result {
 	if sw.Intn(4) == 1 {
 		p.MaxActs = 5
 		p.NextMax = 2
+	}
+	longOdds := 8
+	if world.AutoMode {
+		longOdds = 4 // statement-level windows that need a warmed-up instance only open in long runs
+	}
+	if sw.Intn(longOdds) == 1 { // a long run: few tasks hammering a small set of hot paths on one instance
+		p.MinTasks, p.MaxTasks, p.MinReqs, p.MaxReqs = 2, 3, 60, 110
+		if sw.Intn(2) == 1 {
+			// one family of routes: several static leaves and a placeholder under a dynamic parent
+			p.Patterns = world.RichPatterns[len(world.RichPatterns)-5:]
+			p.MinRoutes, p.MaxRoutes = 5, 5
+			p.GroupPm, p.HeadersPm = 0, 0
+		}
+		p.HotPm, p.HotPaths = 800, 4
+		p.MwCounts = []int{0, 1, 2}
+		p.MaxActs = 1
+		p.PanicPm, p.CancelPm, p.DeadlinePm = 10, 10, 10
+		cfgLong = true
 	}
 	if sw.Intn(4) == 1 { // early writes by middleware (most runs let requests reach their route)
 		p.Ops[world.OpWrite], p.Ops[world.OpWriteHeader], p.Ops[world.OpFlush] = 2, 1, 1
@@ -110,6 +129,11 @@ func (Engine) Run(t *tape.Tape, o eng.Opts) *eng.Result {
 		cfg.PCTHorizon = 40 + sw.Intn(200)
 	}
 	freshTwin := sw.Intn(5) == 1
+	if cfgLong {
+		cfg.MaxSteps = world.StepCap(80000)
+		freshTwin = false
+		res.Probes["long_runs"]++
+	}
 
 	setup := world.GenSetup(gen, p)
 	reqs := world.GenRequests(gen, fg, setup, p)
